@@ -395,7 +395,13 @@ def evaluate(scn: dict, order: list, memo: dict | None = None) -> dict:
             detail = ("holds-unsigned" if waiting - set(exp.valid) else
                       "holds-contained" if waiting & exp.contained else
                       "lost-waiting-token" if exp.waiting - waiting else "holds-unknown")
-            viol.append((f"waiting-area-mismatch:{detail}:{_extras_tag(scn)}",
+            tag = _extras_tag(scn)
+            if detail == "holds-contained":
+                # a contained token still listed as waiting: did it wait next to a sibling (same defect class as
+                # missing-connected-token:fork-before-parent, made visible by a later duplicate)?
+                c = _cause_of_missing(offered, exp, have - (waiting & have), waiting & have)
+                tag = c if c != "other" else tag
+            viol.append((f"waiting-area-mismatch:{detail}:{tag}",
                          head + f"after {labels} the waiting area holds {_names(waiting, name_of)}, signed-but-"
                          f"unconnected offered tokens are {_names(exp.waiting, name_of)}", full))
         if overflow and (waiting - set(exp.valid)):
